@@ -666,6 +666,11 @@ static inline int _apply_boundary_conditions(int mode, unsigned int ddim,
   int neg_ddim;
   unsigned int two_ddim;
 
+  /* Empty axis (ddim = 0 - 1 wrapped around): there is nothing to
+     sample, and the coordinate arithmetic below would overflow */
+  if (dim == 0)
+    return 0;
+
   if (mode == 0) {
     if (*x < -1)
       ok = 0;
